@@ -277,6 +277,13 @@ theorem disabled_gates :
       occursBefore h (· == .acctFlag .disabled) isOp = true := by decide
 
 open Mfi.Gen.Skel in
+/-- **the close instruction itself**: `marginfi_account_close` refuses a FROZEN account in its handler — whoever pays the
+    fees and receives the rent — and then asks `can_be_closed` (empty, not disabled, not in a flash loan, not in
+    receivership: close_ok_iff); both on every path (skeleton regenerated from instructions/marginfi_account/close.rs) -/
+theorem close_checks_frozen_then_can_be_closed :
+    close_account = [.acctFlag .frozen, .canBeClosed] ∧ close_account_cond = [0, 0] := by decide
+
+open Mfi.Gen.Skel in
 /-- … on every path: the ACCOUNT_DISABLED test sits at conditional depth 0 of each of these handlers -/
 theorem disabled_gates_unconditional :
     ∀ h ∈ [(deposit, deposit_cond), (withdraw, withdraw_cond), (borrow, borrow_cond), (repay, repay_cond),
